@@ -660,6 +660,77 @@ fn gen_bindrow(rng: &mut Rng, thorough: bool, emit: &mut dyn FnMut(String)) {
             }
         }
     }
+    // ---- the same through a real Session (Session::batch: the cached first value list; Session::query_unpaged with
+    // values: PREPARE, bind, EXECUTE per attempt).  Mixed batches: unprepared-with-values first + prepared later,
+    // prepared first, all unprepared, all prepared; value lists matching / swapped / fitting only a NEIGHBOUR's markers
+    {
+        let skinds: Vec<u8> = vec![0, 1, 3, 4, 6, 11]; // values whose natural column types the mock can announce
+        let bigint = Ty::Native(NativeType::BigInt);
+        for r in 0..(if thorough { 160 } else { 28 }) {
+            let n = 1 + rng.below(3) as usize;
+            let mut stmts: Vec<(bool, Vec<(String, Ty)>)> = Vec::new();
+            let mut rows: Vec<Vec<(u8, u32)>> = Vec::new();
+            for s in 0..n {
+                let m = if rng.chance(1, 6) { 0 } else { 1 + rng.below(2) as usize };
+                let picks: Vec<(u8, u32)> = (0..m).map(|_| (*rng.pick(&skinds), 0u32)).collect();
+                let prepared = match r % 4 { 0 => s > 0, 1 => s == 0, 2 => false, _ => true };
+                stmts.push((prepared, picks.iter().enumerate().map(|(i, (k, _))| (format!("s{}c{}", s, i), dyn_value(*k, 0).1)).collect()));
+                rows.push(picks);
+            }
+            let show = |stmts: &[(bool, Vec<(String, Ty)>)], rows: &[Vec<(u8, u32)>], carrier: &str| {
+                let ss = stmts.iter().map(|(p, c)| format!("{} {}", if *p { "P" } else { "Q" }, cols_str(c))).collect::<Vec<_>>().join(" || ");
+                let rs = if rows.is_empty() { ".".to_owned() } else { rows.iter().map(|r| join(r.iter().map(|(k, v)| val(*k, *v)).collect())).collect::<Vec<_>>().join(" || ") };
+                format!("sbatch {} | {} | {}", carrier, ss, rs)
+            };
+            let carrier = if rng.bool() { "vec" } else { "tuple" };
+            emit(show(&stmts, &rows, carrier));
+            if n >= 2 {
+                let mut sw = rows.clone();
+                sw.swap(0, 1);
+                emit(show(&stmts, &sw, carrier));
+                // list #0 a copy of list #1: fits the NEIGHBOUR's markers, not (in general) its own
+                let mut dup = rows.clone();
+                dup[0] = rows[1].clone();
+                emit(show(&stmts, &dup, carrier));
+                // statement #0's column changed to a type its list does not fit while statement #1 keeps the original:
+                // an i32 for a bigint marker of the first statement, an int marker in the second
+                if !stmts[0].1.is_empty() {
+                    let mut c = stmts.clone();
+                    c[1].1 = stmts[0].1.clone();
+                    c[0].1[0].1 = if stmts[0].1[0].1 == bigint { Ty::Native(NativeType::Int) } else { bigint.clone() };
+                    let mut rr = rows.clone();
+                    rr[1] = rows[0].clone();
+                    emit(show(&c, &rr, carrier));
+                }
+            }
+            emit(show(&stmts, &rows[..n - 1], "vec"));
+            let i = rng.below(n as u64) as usize;
+            if !stmts[i].1.is_empty() {
+                for m in mutations(&stmts[i].1[0].1).into_iter().filter(|m| !ty_str(m).contains("tuple") && !ty_str(m).contains("udt") && !ty_str(m).contains("vector")).take(2) {
+                    let mut c = stmts.clone();
+                    c[i].1[0].1 = m;
+                    emit(show(&c, &rows, carrier));
+                }
+            }
+        }
+        // Session::query_unpaged with values: fitting, misfitting (must surface as a serialization error, not retried), none
+        for _ in 0..(if thorough { 120 } else { 24 }) {
+            let m = rng.below(3) as usize;
+            let picks: Vec<(u8, u32)> = (0..m).map(|_| (*rng.pick(&skinds), 0u32)).collect();
+            let nat: Vec<(String, Ty)> = picks.iter().enumerate().map(|(i, (k, _))| (format!("c{}", i), dyn_value(*k, 0).1)).collect();
+            let vals = join(picks.iter().map(|(k, v)| val(*k, *v)).collect());
+            emit(format!("squery | {} | {}", cols_str(&nat), vals));
+            if m > 0 {
+                let i = rng.below(m as u64) as usize;
+                for mt in mutations(&nat[i].1).into_iter().filter(|m| !ty_str(m).contains("tuple") && !ty_str(m).contains("udt") && !ty_str(m).contains("vector")).take(2) {
+                    let mut c = nat.clone();
+                    c[i].1 = mt;
+                    emit(format!("squery | {} | {}", cols_str(&c), vals));
+                }
+                emit(format!("squery | {} | {}", cols_str(&nat[..m - 1]), vals));
+            }
+        }
+    }
     // the tuple (i32, String, Vec<i32>)
     let t3 = tup3_shapes();
     let int = Ty::Native(NativeType::Int);
